@@ -1,5 +1,6 @@
 import Pocket.Model.Crash
 import Pocket.Lemmas.StoreRead
+import Pocket.Lemmas.EventMap
 /-
 C13 — killing the process at any instant leaves a consistent, reopenable store.
 PARTIAL (DESIGN.md §6/C13): process kill only; LMDB's commit atomicity, the kernel's page cache
@@ -77,5 +78,39 @@ theorem creation_crash_consistent (m : MapFile) (hm : m ∈ creationStates) : op
 /-- an initialised map is reopened at its recorded end -/
 theorem reopen_end (e : Nat) (he : 8 ≤ e) : openMap (.initialised e) = e := by
   simp [openMap]; omega
+
+/-- **the map file through a killed `store_event`** (lengths and the persisted end marker, with the
+grow-and-retry loop and `set_len`'s truncating semantics modelled): whatever durable state the kill
+leaves — before or after the alignment padding, after any number of `set_len` growth rounds, after the
+append — the file is at least as long as before the call, the marker is the old, the aligned or the
+final one and lies inside the file; the next `EventStore::new` succeeds, keeps that marker, sees the
+real file length, and every later store from there can only extend the file -/
+theorem store_kill_map_states (chunk : Nat) (hc : chunk % 8 = 0) (hpos : 0 < chunk) (m : EMap) (hi : EMInv m)
+    (size fl mk : Nat) (h : (fl, mk) ∈ emStoreStates chunk m size) :
+    m.fileLen ≤ fl ∧ (mk = m.marker ∨ mk = align8 m.marker ∨ mk = align8 m.marker + size) ∧
+    ∃ m', emOpen chunk fl mk = .ok m' ∧ EMInv m' ∧ m'.marker = mk ∧ m'.fileLen = fl ∧
+      ∀ size', ∃ m'', emStore chunk m' size' = .ok (align8 mk, m'') ∧ EMInv m'' ∧ fl ≤ m''.fileLen := by
+  obtain ⟨h1, h2, h3, h4, h5⟩ := emStore_crash_states chunk hc m hi size fl mk h
+  obtain ⟨m', ho, hi', hm, hf⟩ := emOpen_existing chunk fl mk h3 h4 h2
+  refine ⟨h1, h5, m', ho, hi', hm, hf, fun size' => ?_⟩
+  obtain ⟨m'', hs, hi'', _, hle⟩ := emStore_ok chunk hc hpos m' hi' size'
+  exact ⟨m'', by rw [← hm]; exact hs, hi'', by rw [← hf]; exact hle⟩
+
+/-- creation at map level: an absent, empty, or sized-but-never-initialised file opens as an empty
+initialised map of one chunk -/
+theorem creation_map_states (chunk : Nat) (hc : chunk % 8 = 0) (hc8 : 8 ≤ chunk) (fl mk : Nat)
+    (h : (fl, mk) ∈ [(0, 0), (chunk, 0)]) :
+    emOpen chunk fl mk = .ok ⟨chunk, 8, chunk, chunk⟩ ∧ EMInv ⟨chunk, 8, chunk, chunk⟩ := by
+  have h2 : ¬ chunk < 8 := by omega
+  refine ⟨?_, ⟨Nat.le_refl _, hc8, rfl, rfl, hc⟩⟩
+  simp only [List.mem_cons, Prod.mk.injEq, List.not_mem_nil, or_false] at h
+  rcases h with ⟨rfl, rfl⟩ | ⟨rfl, rfl⟩
+  · have h1 : (0 : Nat) < chunk := by omega
+    simp [emOpen, h1, h2]
+  · simp [emOpen, h2]
+
+/-- non-vacuity: a store of 5000 bytes into a fresh one-chunk map passes through two growth rounds -/
+example : emStoreStates 2048 ⟨2048, 8, 2048, 2048⟩ 5000 = [(2048, 8), (2048, 8), (4096, 8), (6144, 8), (6144, 5008)] := by
+  decide
 
 end Pocket.C13
